@@ -16,7 +16,9 @@ pub struct C06;
 /// functions documented to inspect, drop or short-circuit on their arguments (book:
 /// Short-Circuiting Functions, Runtime Errors), plus effectful ones that are C11's business
 const HANDLERS: &[&str] = &[
-    "if", "and", "or", "then", "if_error", "is_error", "get_error", "map_or", "map", "get", "debug", "display",
+    // set_default: the shipped script 351_set_default.xr establishes that the value is not
+    // evaluated when the key is present (caller behaviour; the book is silent)
+    "if", "and", "or", "then", "if_error", "is_error", "get_error", "map_or", "map", "get", "set_default", "debug", "display",
     "error", "assert", "cast", "partial", "sleep", "__std_sleep", "regex", "now", "random", "sample", "shuffle",
     "random_choices", "match", "search",
 ];
